@@ -57,7 +57,17 @@ def pdom_notify(ctx, prog):
 
 pdom_notify.rule_id = "C16.PDOM-notify"
 
-RULES = [rewire, weak_prev_nodes, link_callback, sched, pdom_notify]
+def data_swap(ctx, prog):
+    """Removing a key removes a non-last edge of the result node by swapping it with the last: the four index stores
+    of the swap form a permutation (C14.DATA-swap, reported here too)."""
+    from .engine import run_relabelled
+    from .c14 import data_swap as f
+    run_relabelled(ctx, prog, f, "C14.DATA-swap", "C16.DATA-swap")
+
+
+data_swap.rule_id = "C16.DATA-swap"
+
+RULES = [rewire, weak_prev_nodes, link_callback, sched, pdom_notify, data_swap]
 
 # control signature of the bookkeeping effects this property depends on (rules/ctrlsig.py)
 from .ctrlsig import make_rule as _ctrl_rule  # noqa: E402
